@@ -165,4 +165,140 @@ theorem candLoop_spec (lp rp fs fe : Nat) (hfe : fe < maxU32) : ∀ (fuel : Nat)
         · subst he; exact j3 _ List.mem_cons_self
         · exact j4 q ((i2 q).mpr ⟨(i1 q).mpr hq, by omega⟩) hlt h3 h4
 
+
+/-! ### the invariant of `ngramDocIterator` along a search -/
+
+/-- the pattern occurs at rune offset `o` of document `d` -/
+def occAt (pat : List Nat) (texts : List (List Nat)) (d o : Nat) : Prop :=
+  pat.isPrefixOf ((texts.getD d []).drop o) = true
+
+theorem occAt_bound (pat : List Nat) (texts : List (List Nat)) (d o : Nat) (hp : 0 < pat.length)
+    (h : occAt pat texts d o) : o + pat.length ≤ (texts.getD d []).length := by
+  have := (List.isPrefixOf_iff_prefix.mp h).length_le
+  rw [List.length_drop] at this
+  omega
+
+theorem endsOf_mono (texts : List (List Nat)) : Mono (endsOf texts) := by
+  intro j k hjk hk
+  simp only [endsOf, endsFrom_length] at hk
+  simp only [endsOf]
+  rw [endsFrom_getD texts 0 j (by omega), endsFrom_getD texts 0 k hk]
+  exact baseFrom_mono texts 0 _ _ (by omega)
+
+theorem endsOf_getD (texts : List (List Nat)) (d : Nat) (hd : d < texts.length) :
+    (endsOf texts).getD d 0 = baseOf texts (d + 1) := endsFrom_getD texts 0 d hd
+
+theorem baseOf_succ (texts : List (List Nat)) (d : Nat) (hd : d < texts.length) :
+    baseOf texts (d + 1) = baseOf texts d + (texts.getD d []).length := baseFrom_succ texts 0 d hd
+
+/-- state of the document iterator of a substring leaf (pattern `pat`, first selected trigram at index `i`) when every
+    document below `L` has been dealt with: no occurrence in a document `≥ L` has been consumed -/
+structure DocIter.Inv (texts : List (List Nat)) (pat : List Nat) (i L : Nat) (it : DocIter) : Prop where
+  lp : it.leftPad = i
+  rp : it.rightPad = pat.length - i
+  ends : it.ends = endsOf texts
+  wf : it.iter.WF
+  keep : ∀ d o, L ≤ d → d < texts.length → occAt pat texts d o → it.iter.has (baseOf texts d + o + i)
+  fi : ∀ d, L ≤ d → d < it.fileIdx → d < texts.length → ∀ o, ¬ occAt pat texts d o
+
+/-- **`nextDoc` of the document iterator is sound** and keeps the invariant -/
+theorem DocIter.nextDoc_inv (texts : List (List Nat)) (pat : List Nat) (i L : Nat) (it : DocIter)
+    (hi : i + 3 ≤ pat.length) (h : it.Inv texts pat i L) :
+    it.nextDoc.2.Inv texts pat i L ∧
+    ∀ d, L ≤ d → d < it.nextDoc.1 → d < texts.length → ∀ o, ¬ occAt pat texts d o := by
+  obtain ⟨w1, i1, _, m1⟩ := it.iter.first_spec h.wf
+  have hmono : Mono it.ends := by rw [h.ends]; exact endsOf_mono texts
+  obtain ⟨n1, n2, n3⟩ := nextFileIndex_spec it.iter.first.1 it.fileIdx it.ends hmono
+  have hlen : it.ends.length = texts.length := by rw [h.ends]; exact endsFrom_length texts 0
+  -- the new fileIdx never jumps over an occurrence
+  have hfi : ∀ d, L ≤ d → d < nextFileIndex it.iter.first.1 it.fileIdx it.ends → d < texts.length →
+      ∀ o, ¬ occAt pat texts d o := by
+    intro d hL hd hdn o hocc
+    by_cases hold : d < it.fileIdx
+    · exact h.fi d hL hold hdn o hocc
+    · have hle := n2 d (by omega) hd
+      have hb := occAt_bound pat texts d o (by omega) hocc
+      rw [h.ends, endsOf_getD texts d hdn, baseOf_succ texts d hdn] at hle
+      have hq := h.keep d o hL hdn hocc
+      rcases m1 with ⟨_, b⟩ | ⟨_, b⟩
+      · exact b _ hq
+      · have := b _ hq; omega
+  have hinv : DocIter.Inv texts pat i L
+      { it with iter := it.iter.first.2, fileIdx := nextFileIndex it.iter.first.1 it.fileIdx it.ends } :=
+    ⟨h.lp, h.rp, h.ends, w1, fun d o a b c => (i1 _).mpr (h.keep d o a b c), hfi⟩
+  have e : it.nextDoc =
+      (if nextFileIndex it.iter.first.1 it.fileIdx it.ends ≥ it.ends.length then maxU32
+        else nextFileIndex it.iter.first.1 it.fileIdx it.ends,
+       { it with iter := it.iter.first.2, fileIdx := nextFileIndex it.iter.first.1 it.fileIdx it.ends }) := by
+    simp only [DocIter.nextDoc]
+    split <;> rfl
+  rw [e]
+  refine ⟨hinv, fun d hL hd hdn => ?_⟩
+  simp only at hd
+  apply hfi d hL ?_ hdn
+  by_cases hge : nextFileIndex it.iter.first.1 it.fileIdx it.ends ≥ it.ends.length
+  · omega
+  · simp only [hge, if_false] at hd; exact hd
+
+/-- **`docIter_candidates_complete`** (one step of the search): preparing the iterator for a document `d ≥ L` and taking
+    its candidates yields every offset at which the pattern occurs in `d`, and the invariant for `d + 1` -/
+theorem DocIter.prepare_candidates (texts : List (List Nat)) (pat : List Nat) (i L : Nat) (it : DocIter)
+    (hi : i + 3 ≤ pat.length) (hsz : totalLen texts + pat.length < maxU32) (h : it.Inv texts pat i L)
+    (d : Nat) (hL : L ≤ d) (hd : d < texts.length) :
+    (∀ o, occAt pat texts d o → o ∈ (it.prepare d).candidates.1) ∧
+    (it.prepare d).candidates.2.Inv texts pat i (d + 1) := by
+  have hlen : it.ends.length = texts.length := by rw [h.ends]; exact endsFrom_length texts 0
+  -- the start of the document
+  have hstart : (if d > 0 then it.ends.getD (d - 1) 0 else 0) = baseOf texts d := by
+    by_cases hd0 : d > 0
+    · simp only [hd0, if_true]
+      rw [h.ends, endsOf_getD texts (d - 1) (by omega)]
+      congr 1; omega
+    · have : d = 0 := by omega
+      subst this; simp [baseOf, baseFrom]
+  have hbt : baseOf texts d ≤ totalLen texts := by
+    have := baseFrom_le_total texts 0 d; simpa [baseOf] using this
+  have hbt1 : baseOf texts (d + 1) ≤ totalLen texts := by
+    have := baseFrom_le_total texts 0 (d + 1); simpa [baseOf] using this
+  -- the iterator after `prepare`
+  obtain ⟨it1, hit1, hw1, hk1⟩ : ∃ it1 : Hit, (it.prepare d).iter = it1 ∧ it1.WF ∧
+      ∀ d' o, d ≤ d' → d' < texts.length → occAt pat texts d' o → it1.has (baseOf texts d' + o + i) := by
+    simp only [DocIter.prepare, hstart]
+    by_cases hs : baseOf texts d > 0
+    · simp only [hs, if_true]
+      obtain ⟨w, j, _⟩ := it.iter.next_spec h.wf (baseOf texts d + it.leftPad - 1) (by rw [h.lp]; omega)
+      refine ⟨_, rfl, w, fun d' o a b c => (j _).mpr ⟨h.keep d' o (by omega) b c, ?_⟩⟩
+      have := baseFrom_mono texts 0 d d' a
+      simp only [baseOf] at hs ⊢
+      rw [h.lp]; omega
+    · simp only [hs, if_false]
+      exact ⟨_, rfl, h.wf, fun d' o a b c => h.keep d' o (by omega) b c⟩
+  have hfidx : (it.prepare d).fileIdx = d := by simp [DocIter.prepare]
+  have hends : (it.prepare d).ends = it.ends := by simp [DocIter.prepare]
+  have hlp : (it.prepare d).leftPad = it.leftPad := by simp [DocIter.prepare]
+  have hrp : (it.prepare d).rightPad = it.rightPad := by simp [DocIter.prepare]
+  have hfe : it.ends.getD d 0 = baseOf texts (d + 1) := by rw [h.ends]; exact endsOf_getD texts d hd
+  obtain ⟨c1, c2, _, c4⟩ := candLoop_spec it.leftPad it.rightPad (baseOf texts d) (baseOf texts (d + 1)) (by omega)
+    (it1.size + 1) it1 [] hw1 (by omega)
+  have e : (it.prepare d).candidates =
+      ((candLoop it.leftPad it.rightPad (baseOf texts d) (baseOf texts (d + 1)) (it1.size + 1) it1 []).1,
+       { it.prepare d with iter :=
+          (candLoop it.leftPad it.rightPad (baseOf texts d) (baseOf texts (d + 1)) (it1.size + 1) it1 []).2 }) := by
+    simp only [DocIter.candidates, hfidx, hends, hlp, hrp, hit1, hstart, hfe]
+    have : ¬ (d ≥ it.ends.length) := by omega
+    simp only [this, if_false]
+  rw [e]
+  refine ⟨fun o hocc => ?_, ?_⟩
+  · have hb := occAt_bound pat texts d o (by omega) hocc
+    have hs := baseOf_succ texts d hd
+    have := c4 _ (hk1 d o (Nat.le_refl _) hd hocc) (by omega) (by rw [h.lp]; omega) (by rw [h.rp]; omega)
+    have e2 : baseOf texts d + o + i - baseOf texts d - it.leftPad = o := by rw [h.lp]; omega
+    rwa [e2] at this
+  · refine ⟨by simpa [DocIter.prepare] using h.lp, by simpa [DocIter.prepare] using h.rp,
+      by simpa [DocIter.prepare] using h.ends, c1, fun d' o a b c => ?_, fun d' a b => ?_⟩
+    · refine (c2 _).mpr ⟨hk1 d' o (by omega) b c, ?_⟩
+      have := baseFrom_mono texts 0 (d + 1) d' a
+      simp only [baseOf]; omega
+    · simp only [DocIter.prepare] at b; omega
+
 end ZoektModel.C01
